@@ -34,6 +34,7 @@ TrClearEdges == IsEv("clear_edges") /\ ClearEdges /\ Bind
 TrClear == IsEv("clear") /\ Clear /\ Bind
 TrFromSorted == IsEv("from_sorted") /\ CsrFromSorted(Ev.edges) /\ Bind
 TrExtend == IsEv("extend") /\ Is("map") /\ MapExtend(Ev.edges) /\ Bind
+TrLoad == IsEv("load") /\ Is("map") /\ MapLoad(Ev.nodes, Ev.edges) /\ Bind
 TrNoEffect == IsEv("noeffect") /\ NoEffect /\ Bind
 \* the IF makes TLC evaluate ObsOK as a state predicate (otherwise its inner disjunctions are expanded
 \* as alternative ways to build the successor state)
@@ -41,7 +42,7 @@ TrObs == IsEv("obs") /\ (IF ObsOK(Ev) THEN UNCHANGED svars ELSE FALSE)
 
 TraceNext == \/ TrReset \/ TrAddNode \/ TrRemoveNode \/ TrTryAddEdge \/ TrAddEdge \/ TrUpdateEdge \/ TrTryUpdateEdge
              \/ TrRemoveEdge \/ TrTryRemoveEdge \/ TrSetEdgeWeight \/ TrSetNodeWeight \/ TrClearEdges \/ TrClear
-             \/ TrFromSorted \/ TrExtend \/ TrNoEffect \/ TrObs
+             \/ TrFromSorted \/ TrExtend \/ TrLoad \/ TrNoEffect \/ TrObs
 TraceSpec == TraceInit /\ [][TraceNext]_tvars
 TraceInv == WF /\ l # DbgAt
 
